@@ -156,7 +156,14 @@ func (c *Ctx) c01Jobs(maxN int, flags ...string) []Job {
 			} else {
 				p.errs = append(p.errs, fmt.Sprintf("%s: DFA table simulation: %v", p.l.Name, err))
 			}
-			for n := 0; n <= maxN; n++ {
+			top := maxN
+			if c.Quick() && top > 2 && !(p.l.Name == "L04" || p.l.Name == "L07" || p.l.Name == "L10" || p.l.Name == "L09") {
+				// quick tier: the table-simulation job is unbounded in lexeme length; the Scan runs only
+				// have to establish the loop around the tables, 3 bytes are kept for the grammars that
+				// mix accepting and ignoring states
+				top = 2
+			}
+			for n := 0; n <= top; n++ {
 				p.jobs = append(p.jobs, Job{
 					Name:           fmt.Sprintf("scan %s%v N=%d", p.l.Name, flags, n),
 					Target:         p.t,
